@@ -158,6 +158,10 @@ func VerifCmdMinifierFault(n int) {
 	}
 	if rd.FailAfter < 0 && !w.failed && w.FailFrom == 0 {
 		vAssert(err == nil && refEq(w.buf, in), "no fault: the command's output is delivered")
+		// the registered command is shared between calls: a second call behaves like the first (C13)
+		w2 := &vWriter{}
+		err2 := m.Minify("x/y", w2, &vReader{b: append([]byte(nil), in...)})
+		vAssert(err2 == nil && refEq(w2.buf, in), "a second call on the same registration delivers the same output")
 	}
 	vReach("end")
 }
